@@ -153,6 +153,48 @@ def build_api(c, names, rng=None, order='random'):
     return sc
 
 
+def build_api_edit(c, names, rng):
+    """Build through the editing API: composite sub-trees are first created under the root and then
+    moved to their place with move_state; some states are created under a temporary name and renamed."""
+    sc = Statechart('chart', description='generated', preamble='x = 0')
+    n = c['n']
+    r = gc.root(c)
+    order = sorted(range(1, n + 1), key=lambda s: (gc.depth(c, s), rng.random()))
+    moved = []
+    tmpnames = {}
+    for s in order:
+        p = c['parent'][s - 1]
+        st = make_state(c, s, names)
+        where = p
+        k = c['kind'][s - 1]
+        if (p and p != r and k in ('compound', 'orthogonal', 'basic') and c['kind'][r - 1] in ('compound', 'orthogonal')
+                and rng.random() < 0.5):
+            where = r
+            moved.append(s)
+        if rng.random() < 0.3:
+            tmpnames[s] = 'zz_tmp_%d' % s
+            st._name = tmpnames[s]
+        pname = (tmpnames.get(where) or names[where]) if where else None
+        sc.add_state(st, pname)
+    for s in moved:
+        sc.move_state(tmpnames.get(s) or names[s], tmpnames.get(c['parent'][s - 1]) or names[c['parent'][s - 1]])
+    for s, t in tmpnames.items():
+        sc.rename_state(t, names[s])
+    # initial / memory may have been reset by move_state, or still carry final names of renamed states
+    for s in range(1, n + 1):
+        st = sc.state_for(names[s])
+        if c['kind'][s - 1] == 'compound':
+            st.initial = names[c['initial'][s - 1]] if c['initial'][s - 1] else None
+        if c['kind'][s - 1] in ('shallow', 'deep'):
+            st.memory = names[c['memory'][s - 1]]
+    tids = list(range(1, len(c['trans']) + 1))
+    rng.shuffle(tids)
+    for tid in tids:
+        sc.add_transition(make_transition(c, tid, names))
+    sc.validate()
+    return sc
+
+
 def _ystr(s):
     """A YAML double-quoted scalar."""
     out = s.replace('\\', '\\\\').replace('"', '\\"').replace('\n', '\\n')
@@ -231,6 +273,8 @@ def build(c, variant='api', pool='plain', seed=0):
     names = names_for(c, pool)
     if variant == 'api':
         sc = build_api(c, names, random.Random(seed), 'random')
+    elif variant == 'api_edit':
+        sc = build_api_edit(c, names, random.Random(seed))
     elif variant == 'api_sorted':
         sc = build_api(c, names, None, 'sorted')
     elif variant == 'api_reversed':
